@@ -128,6 +128,11 @@ def dropSenderOpt (ops : List Op) : Option Nat → List Op
   | some i => dropSender ops i
   | none => ops
 
+/-- `streaming_search_with`: when `start()` fails the stream, and with it the item receiver, is dropped -/
+def dropRxOf (cs : List Chan) : Option Nat → List Chan
+  | some c => modifyChan cs c fun ch => { ch with rxAlive := false }
+  | none => cs
+
 /-- the driver ends (any cause): it drops the op queue with its contents, both maps and the transport -/
 def endDriver (s : St) (how : Drv) : St :=
   let ops1 := s.opQ.foldl dropSender s.ops
@@ -232,15 +237,17 @@ def step (s : St) (e : Ev) : Option (St × Obs) :=
       else match o.mail with
         | .ack => some ({ s with ops := s.ops.set i { o with res := some .ack } }, .res (some .ack))
         | .frame f => some ({ s with ops := s.ops.set i { o with res := some (.frame f) } }, .res (some (.frame f)))
-        | .dropped => some ({ s with ops := s.ops.set i { o with res := some .recvErr } }, .res (some .recvErr))
+        | .dropped => some ({ s with ops := s.ops.set i { o with res := some .recvErr },
+                                      chans := dropRxOf s.chans o.chan }, .res (some .recvErr))
         | .empty =>
           match o.deadline with
           | some d =>
             if s.now ≥ d then
               if s.drv = .running then
-                some ({ s with ops := s.ops.set i { o with res := some .timeout }, scrubQ := s.scrubQ ++ [o.id] },
-                      .res (some .timeout))
-              else some ({ s with ops := s.ops.set i { o with res := some .scrubSendErr } }, .res (some .scrubSendErr))
+                some ({ s with ops := s.ops.set i { o with res := some .timeout }, scrubQ := s.scrubQ ++ [o.id],
+                               chans := dropRxOf s.chans o.chan }, .res (some .timeout))
+              else some ({ s with ops := s.ops.set i { o with res := some .scrubSendErr },
+                                  chans := dropRxOf s.chans o.chan }, .res (some .scrubSendErr))
             else some (s, .res none)
           | none => some (s, .res none)
   | .recv c deadline =>
